@@ -124,9 +124,12 @@ def pList (io : GIO G) (s : String) : Option (List G) :=
 
 /-- verdict of a path that goes through GLV (needs `φ(P) = λ•P`, true on the order-`r` subgroup only):
     outside the subgroup the type invariant of `Projective` ("in the correct prime order subgroup") is
-    violated by the caller; recorded as a note, not as a failure -/
+    violated by the caller; recorded as a note, not as a failure.  Likewise a configuration whose
+    `SCALAR_DECOMP_COEFFS` do not have determinant `r` violates the documented requirement of `GLVConfig`
+    (used by the harness only to reach the `skip_zeros` branch of the ladder). -/
 def vsGlv (io : GIO G) (c : GlvCfg) (P : G) (impl want : String) : String :=
   if impl == want then "ok"
+  else if c.n11 * c.n22 - c.n12 * c.n21 != (c.r : Int) then "note:glv-matrix-determinant-is-not-r,want=" ++ want
   else if io.smul c.r P != 0 then "note:P-outside-order-r-subgroup,want=" ++ want
   else "bad:want=" ++ want
 
